@@ -62,10 +62,33 @@ RULE = ("one case = one Saml2Client (one configuration) consuming a sequence of 
         "assertions are taken only under a signature of the Response; some lists come without, for the repaired number "
         "rule), bindings drawn; + random lists (quick 60, thorough 1000) over the full product "
         "incl. only_use_keys_in_metadata; run as sequences of 4 messages on one SP.  "
+        "(H) which ds:Signature the engine verifies versus which one the library inspects (round 6): a DESCENDANT of the signed "
+        "element carries a complete ds:Signature of its own - a signed assertion parked in the assertion's saml:Advice / "
+        "SubjectConfirmationData / an AttributeValue, in the Response's samlp:Extensions / StatusDetail, or the Response's own "
+        "signed assertion - made by {IdP, IdP then edited, untrusted key, another member, rotated key} x it comes AHEAD of the "
+        "element's Signature child in document order (the child is then the last child instead of standing after Issuer) or "
+        "after it x the element's own signature {by the IdP, SignatureValue / content edited, untrusted key with and without "
+        "KeyInfo, rotated key} x signed element {assertion, Response} x 4 option settings x {plain, encrypted}: quick = "
+        "complete for assertion + ahead, the usual own / descendant signatures complete elsewhere, the rest in turn.  "
+        "(I) which private keys open the EncryptedAssertion (round 6): recipient of the encryption {configured key, key pair "
+        "of this request, another per-request key pair, a foreign key} x outstanding_certs argument of "
+        "parse_authn_request_response {not given, {}, entry under another request id (dict / list), entry of this request "
+        "with the request key (dict / one-element list / list with another key first) / with the other per-request key / "
+        "with the configured key} x signatures {none, Response, assertion, both; some edited / by an untrusted key} x 6 "
+        "option settings in turn (forced pass succeeds | fails and the retry decides | unsigned assertion refused); plain "
+        "messages with every outstanding_certs; Responses with 2-3 assertions, plain next to encrypted, under 7 (recipient, "
+        "outstanding_certs) pairs; sequences of 6 on one SP.  "
         "Signature states are real: RSA through the xmlsec1 stand-in, corruption by byte edits.  "
         "non-trivial = distinct (configuration, abstract message sequence) other than (defaults, Valid, Absent, plain, POST)")
 TRUSTED = ["xmlsec1 stand-in (sign/verify/encrypt/decrypt; --decrypt opens the first EncryptedData only, like xmlsec1)",
            "renderer harness/render.py",
+           "harness/c01.py:build_shaped for shape x='in' (round 6): the descendant (assertion a-9 / a-8 for subject-0) is signed "
+           "on its own through the stand-in before the element is; the element's Signature child is moved to the end of the "
+           "element textually after signing (_move_own_signature_to_end: the enveloped-signature transform takes it out before "
+           "the digest, so the signature stays as good as it was)",
+           "harness/c01.py:observe_with_certs / outstanding_certs (round 6; local twin of spaccept.observe with the "
+           "outstanding_certs argument: PEM texts of harness/fixtures key pairs spenc2 = the request's, other = another "
+           "per-request pair, attacker = foreign)",
            "harness/c01.py:build_multi / encrypt_child / corrupt_assertion (Responses with several assertions: each assertion "
            "signed, edited and encrypted on its own through the stand-in; the abstract flags of a case say what was done)",
            "translator harness/c01.py:regenerate_tables (AST of client_base.Base.__init__ attribute_defaults and of "
@@ -105,7 +128,14 @@ ASSUMPTIONS = ["everything but the signatures and the Issuer elements is valid (
                "valid, IDs are distinct (a-1, a-2, ..), every EncryptedAssertion holds one EncryptedData with its own Id, "
                "encrypted for the receiver, signatures in the standard form; NOT generated: an EncryptedAssertion for "
                "another recipient, EncryptedID inside an assertion, assertions inside saml:Advice (C04), duplicate IDs, "
-               "more than 5 assertions"]
+               "more than 5 assertions",
+               "round 6: all EncryptedAssertions of one Response are made for the SAME certificate (one recipient per message); "
+               "a per-request key pair reaches the SP only through outstanding_certs[InResponseTo] (entry = dict or list of "
+               "dicts with 'key' and 'cert'); NOT generated: EncryptedAssertions for different recipients inside one Response "
+               "(nothing behind the first sealed EncryptedData is opened), an entry without 'key', keys given as bytes; "
+               "the descendant that carries a signature of its own is an assertion for another subject by the same Issuer, its "
+               "signature in the standard form; NOT generated: several such descendants, a descendant inside an encrypted "
+               "Advice, a Signature child in the middle of the element (only: usual place / last child)"]
 
 OPTV = ["unset", True, False, "true"]
 SIGST = ["Absent", "Valid", "Corrupt", "Untrusted"]
@@ -541,6 +571,14 @@ CQ_WHO = {"idp": "WIdp", "other": "WOther", "unknown": "WUnknown", "none": "WNon
 CQ_KEY = {"idp": "KIdp", "idp2": "KIdp2", "idpenc": "KIdpEnc", "other": "KOther", "sp": "KSp", "attacker": "KAttacker"}
 CQ_KI = {"none": "KiNone", "signer": "KiSigner", "idp": "KiIdp"}
 DEFAULT_CFG = {"wr": "unset", "wa": "unset", "wor": "unset", "only": "unset"}
+# round 6: who can open an EncryptedAssertion.  step["rcpt"] = whose certificate the EncryptedKey is made for (absent = "sp");
+# step["oc"] = the outstanding_certs argument of parse_authn_request_response (absent / None = not given)
+RCPT_CERT = {"sp": "sp", "req": "spenc2", "req2": "other", "foreign": "attacker"}
+CQ_RCPT = {"sp": "DConfigured", "req": "DRequest", "req2": "DRequest2", "foreign": "DForeign"}
+# name -> (request id of the entry, key pairs of the entry (rcpt names), entry written as a list?)
+OCERTS = {"empty": None, "else": ("req-0", ["req"], False), "this": ("req-1", ["req"], False),
+          "thislist": ("req-1", ["req2", "req"], True), "this1list": ("req-1", ["req"], True),
+          "thiscfg": ("req-1", ["sp"], False), "this2": ("req-1", ["req2"], False), "elselist": ("req-0", ["req", "req2"], True)}
 
 
 def cell(wr, wa, wor, rs, as_, enc, b, tag):
@@ -756,6 +794,12 @@ def normalise(st):
         if not g or not g.get("sh"):
             continue
         sh = g["sh"]
+        if sh["x"] == "in" and sh["n"]["where"] == "assertion":
+            # the descendant is the Response's own plain assertion: its signature is what the step says
+            if elem != "R" or st["enc"] or not st["as"] or st["as"].get("sh") or st["as"]["c"] not in (None, "sigvalue", "digest") \
+                    or not sh["n"]["ahead"]:
+                raise ValueError("nested where=assertion: a Response around a plain assertion with a standard signature")
+            sh["n"]["k"], sh["n"]["bad"] = st["as"]["k"], bool(st["as"]["c"])
         sh.setdefault("place", "status" if elem == "R" else "advice")
         if elem == "R" and st["enc"]:
             sh["place"] = "status"           # the assertion's Advice is not readable when the Response is verified
@@ -841,7 +885,144 @@ def generate(ctx):
     # (G) likewise; its messages are the dearest (several signatures and decryption rounds each): they go first so
     # that the fork pool of the driver does not end on them
     rng4 = random.Random(rng.randrange(1 << 30))
-    return gen_multi(ctx, rng4) + cases
+    # (H), (I) (round 6) likewise
+    rng5 = random.Random(rng.randrange(1 << 30))
+    return gen_multi(ctx, rng4) + gen_deckeys(ctx, rng5) + cases + gen_nested(ctx, rng5)
+
+
+# ---------------------------------------------------------------------------- (H) signatures of descendants (round 6)
+# shape["x"] == "in": no second Signature child, but a DESCENDANT of the signed element carries a complete ds:Signature of
+# its own; shape["n"] = {"ahead": does it precede the element's Signature child in document order (the child is then the
+# LAST child instead of standing right after Issuer), "k": key that made it, "bad": SignatureValue edited afterwards,
+# "where": "advice" | "scd" (SubjectConfirmationData) | "attrval" (an AttributeValue)      - signed assertion a-9 inside the assertion
+#        | "ext" (samlp:Extensions) | "status" (StatusDetail)                               - signed assertion a-8 inside the Response
+#        | "assertion" (the Response's own signed plain assertion; ahead only)}
+NESTED_WHERE = {"A": ["advice", "scd", "attrval"], "R": ["ext", "status", "assertion"]}
+
+
+def nested_shape(ahead, k, bad, where, **kw):
+    return dict(shape(x="in", **kw), n={"ahead": ahead, "k": k, "bad": bad, "where": where})
+
+
+def gen_nested(ctx, rng):
+    """(H) which ds:Signature the engine verifies versus which one the library inspects: signed element {assertion,
+    Response} x its own signature {by the IdP, by the IdP then SignatureValue / content edited, by an untrusted key (with
+    and without its certificate in KeyInfo), by the rotated key} x the descendant's signature {by the IdP, by the IdP then
+    edited, by an untrusted key, by another member} x ahead of / after the element's Signature child x where the
+    descendant is parked (3 places each) x options (the element's signature demanded / either-or / nothing demanded)
+    x {plain, encrypted}; quick: the descendants by the IdP and by an untrusted key complete, the rest in turn."""
+    owns = [sig("idp"), sig("idp", c="sigvalue"), sig("attacker"), sig("attacker", "signer"), sig("idp", c="nameid"), sig("idp2")]
+    nests = [("idp", False), ("idp", True), ("attacker", False), ("other", False), ("idp2", False)]
+    cfgs = {"A": [(False, True, "unset"), (False, False, True), ("unset", "unset", "unset"), (False, False, False)],
+            "R": [(True, False, False), (False, False, True), ("unset", True, "unset"), (False, "unset", "unset")]}
+    cells, n = [], 0
+    for elem in ("A", "R"):
+        for where in NESTED_WHERE[elem]:
+            for ahead in (True, False):
+                if where == "assertion" and not ahead:
+                    continue
+                for oi, own in enumerate(owns):
+                    for ni, (nk, nbad) in enumerate(nests):
+                        n += 1
+                        # quick: complete where the descendant's signature comes first inside an assertion (the one place
+                        # where the engine can resolve it); elsewhere the rarer own / descendant signatures in turn
+                        if not ctx.thorough and not (elem == "A" and ahead) and (oi >= 3 or ni >= 3) and rng.random() >= 0.3:
+                            continue
+                        opts = cfgs[elem][0] if (n % 3 and not ctx.thorough) else cfgs[elem][n % len(cfgs[elem])]
+                        g = dict(copy.deepcopy(own), sh=nested_shape(ahead, nk, nbad, where))
+                        if elem == "R" and g["c"] == "nameid":
+                            g["c"] = "envelope"
+                        other = None
+                        if where == "assertion":
+                            other = sig(nk, c="sigvalue" if nbad else None)
+                        elif n % 5 == 0:
+                            other = sig("idp")
+                        enc = elem == "A" and n % 4 == 1
+                        rs_, as_ = (g, other) if elem == "R" else (other, g)
+                        # a signed Response around the assertion: with the defaults the Response must be signed anyway
+                        if elem == "A" and opts[0] in (True, "unset") and rs_ is None:
+                            rs_ = sig("idp")
+                        cells.append((opts, normalise(step("idp", "idp", rs_, as_, enc=enc,
+                                                           b=rng.choice(["POST", "POST", "POST", "Redirect", "SOAP"]),
+                                                           seed=rng.randrange(1 << 30)))))
+    by_cfg = {}
+    for opts, st_ in cells:
+        by_cfg.setdefault(opts, []).append(st_)
+    cases = []
+    for opts, part in sorted(by_cfg.items(), key=lambda kv: repr(kv[0])):
+        rng.shuffle(part)
+        cfg = {"wr": opts[0], "wa": opts[1], "wor": opts[2], "only": "unset"}
+        for i in range(0, len(part), 12):
+            cases.append(seq("nested", cfg, part[i:i + 12]))
+    return cases
+
+
+# ---------------------------------------------------------------------------- (I) who can open the assertion (round 6)
+DEC_CFGS = [("unset", "unset", "unset"), (False, False, True), (False, True, "unset"), (False, False, False),
+            (True, "unset", True), ("unset", True, True)]
+
+
+def gen_deckeys(ctx, rng):
+    """(I) which private keys can open the EncryptedAssertion x which pass of _parse_response yields the identity:
+    recipient of the encryption {the configured key, the key pair of this request, another per-request key pair, a
+    foreign key} x outstanding_certs {not given, {}, an entry under another request id (dict / list), the entry of this
+    request holding: the request key (dict / one-element list / list with another key first), the other per-request
+    key, the configured key} x signatures {none, Response, assertion, both; some altered / by an untrusted key} x 6
+    option settings (so that the forced pass succeeds / fails and the retry decides / the unsigned assertion is
+    refused) x a few plain messages (the keys are irrelevant) x Responses with several assertions (plain next to
+    encrypted ones, all EncryptedAssertions of a Response for the same certificate)."""
+    rcpts = ["sp", "req", "req2", "foreign"]
+    ocs = [None, "empty", "else", "elselist", "this", "this1list", "thislist", "this2", "thiscfg"]
+    sigs = [(sig("idp"), None), (None, sig("idp")), (sig("idp"), sig("idp")), (None, None)]
+    cells, n = [], 0
+    for r in rcpts:
+        for oc in ocs:
+            for si, (rs_, as_) in enumerate(sigs):
+                n += 1
+                picks = DEC_CFGS if ctx.thorough else [DEC_CFGS[(n + k) % len(DEC_CFGS)] for k in (0, 3)]
+                # the cell the property promises something for is never left out: a Response that satisfies the defaults
+                if not ctx.thorough and si == 0 and DEC_CFGS[0] not in picks:
+                    picks = [DEC_CFGS[0]] + picks[1:]
+                for opts in picks:
+                    rs2, as2 = copy.deepcopy(rs_), copy.deepcopy(as_)
+                    x = rng.random()
+                    if as2 and x < 0.12:
+                        as2 = sig(rng.choice(["idp", "attacker"]), c=rng.choice(["sigvalue", "nameid", None]))
+                    elif rs2 and x > 0.9:
+                        rs2 = sig(rng.choice(["idp", "attacker"]), c=rng.choice(["sigvalue", "envelope", None]))
+                    st_ = step("idp", "idp", rs2, as2, enc=True, b=rng.choice(["POST", "POST", "POST", "Redirect", "SOAP"]),
+                               seed=rng.randrange(1 << 30))
+                    st_["rcpt"], st_["oc"] = r, oc
+                    cells.append((opts, st_))
+    # plain assertions: the keys are irrelevant
+    for oc in ocs[1:]:
+        n += 1
+        st_ = step("idp", "idp", sig("idp"), sig("idp") if n % 2 else None, enc=False, seed=rng.randrange(1 << 30))
+        st_["oc"] = oc
+        cells.append((DEC_CFGS[n % len(DEC_CFGS)], st_))
+    # several assertions: what cannot be opened is passed over, the plain ones are walked
+    lists = ["pe", "ep", "ee", "ppe", "pee", "epe"] + (["pppe", "eee", "peep"] if ctx.thorough else [])
+    for a in lists:
+        for r, oc in (("sp", "this"), ("req", "this"), ("req", "thislist"), ("req", None), ("foreign", "this"), ("req2", "this"), ("req", "else")):
+            for states in (["V"] * len(a), None):
+                n += 1
+                if states is None:
+                    states = [rng.choice("VVVAACU") for _ in a]
+                rs_ = sig("idp") if rng.random() < 0.85 else None
+                st_ = mstep("idp", rs_, [asr(k, s_) for k, s_ in zip(a, states)], rng.choice(["POST"] * 4 + ["Redirect", "SOAP"]),
+                            rng.randrange(1 << 30))
+                st_["rcpt"], st_["oc"] = r, oc
+                cells.append((DEC_CFGS[n % 4], st_))
+    by_cfg = {}
+    for opts, st_ in cells:
+        by_cfg.setdefault(opts, []).append(st_)
+    cases = []
+    for opts, part in sorted(by_cfg.items(), key=lambda kv: repr(kv[0])):
+        rng.shuffle(part)
+        cfg = {"wr": opts[0], "wa": opts[1], "wor": opts[2], "only": "unset"}
+        for i in range(0, len(part), 6):
+            cases.append(seq("deckeys", cfg, part[i:i + 6]))
+    return cases
 
 
 # ---------------------------------------------------------------------------- (G) several assertions in one Response
@@ -1224,6 +1405,34 @@ def _rewrite_after_signing(xml, own, sh):
     return xml
 
 
+def _element_end(xml, own):
+    """Offset of the end tag of the element whose start tag carries ID=own (same-name elements may nest inside)."""
+    m = re.search(r"<((?:\w+:)?\w+)\b[^>]*\bID=\"%s\"" % re.escape(own), xml)
+    depth = 0
+    for t in re.compile(r"<(/?)%s\b[^>]*?(/?)>" % re.escape(m.group(1))).finditer(xml, m.start()):
+        if t.group(2):
+            continue
+        depth += -1 if t.group(1) else 1
+        if depth == 0:
+            return t.start()
+    raise ValueError("end tag of %s not found" % own)
+
+
+def _move_own_signature_to_end(xml, own):
+    """The ds:Signature child of the element `own` (in its usual place, i.e. the first ds:Signature after the start tag)
+    becomes the LAST child.  The enveloped-signature transform takes the ds:Signature out before the digest is made, so
+    the signature stays exactly as good as it was; pysaml2 reads children by tag, whatever their order."""
+    i = _own_signature_start(xml, own)
+    j = re.compile(r"</(?:\w+:)?Signature>").search(xml, i).end()
+    sigxml, rest = xml[i:j], xml[:i] + xml[j:]
+    k = _element_end(rest, own)
+    return rest[:k] + sigxml + rest[k:]
+
+
+def _nested(g):
+    return g["sh"]["n"] if g and g.get("sh") and g["sh"]["x"] == "in" else None
+
+
 def _sig_xml(own, g):
     sh = g.get("sh") or STD_SHAPE
     t = shaped_template(own, sh, _keyinfo(g))
@@ -1264,22 +1473,46 @@ def build_shaped(st, memo):
     if as_:
         a["sig_template"] = _sig_xml("a-1", as_)
     advice = (a0 if a0 and as_["sh"]["place"] == "advice" else "") + (r0 if r0 and rs["sh"]["place"] == "advice" else "")
+    # round 6: a descendant of the signed element that carries a complete ds:Signature of its own (a signed assertion for
+    # subject-0: a-9 inside the assertion, a-8 inside the Response)
+    an, rn = _nested(as_), _nested(rs)
+
+    def signed_parked(aid):
+        o = spaccept.good_assertion(id=aid, attributes=None, issuer=WHO_ID[st["aw"]] or world.IDP_ID)
+        o["subject"] = dict(o["subject"], name_id="subject-0")
+        o["sig_template"] = render.signature_template(aid)
+        return render.assertion(o)
+
+    if an and an["where"] == "advice":
+        advice += signed_parked("a-9")
     if advice:
         a["advice"] = "<saml:Advice>%s</saml:Advice>" % advice
     axml = render.assertion(a)
+    if an and an["where"] == "scd":
+        m = re.search(r"<saml:SubjectConfirmationData([^>]*)/>", axml)
+        axml = axml[:m.start()] + "<saml:SubjectConfirmationData%s>%s</saml:SubjectConfirmationData>" % (m.group(1), signed_parked("a-9")) + axml[m.end():]
+    if an and an["where"] == "attrval":
+        i = axml.index("</saml:Attribute>")
+        axml = axml[:i] + "<saml:AttributeValue>%s</saml:AttributeValue>" % signed_parked("a-9") + axml[i:]
     if st["aw"] == "none":
         assert axml.count("<saml:Issuer></saml:Issuer>") == 1
         axml = axml.replace("<saml:Issuer></saml:Issuer>", "", 1)
     resp["assertions_xml"] = [axml]
-    if a0 and as_["sh"]["place"] == "ext":
-        resp["extensions"] = "<samlp:Extensions>%s</samlp:Extensions>" % a0
+    ext = (a0 if a0 and as_["sh"]["place"] == "ext" else "") + (signed_parked("a-8") if rn and rn["where"] == "ext" else "")
+    if ext:
+        resp["extensions"] = "<samlp:Extensions>%s</samlp:Extensions>" % ext
     if rs:
         resp["sig_template"] = _sig_xml("r-1", rs)
     xml = render.response(resp)
-    if r0 and rs["sh"]["place"] == "status":
-        assert xml.count("</samlp:StatusMessage>") == 1 and r0.count("</samlp:StatusMessage>") == 0
+    detail = (r0 if r0 and rs["sh"]["place"] == "status" else "") + (signed_parked("a-8") if rn and rn["where"] == "status" else "")
+    if detail:
+        assert xml.count("</samlp:StatusMessage>") == 1 and detail.count("</samlp:StatusMessage>") == 0
         i = xml.index("</samlp:StatusMessage>") + len("</samlp:StatusMessage>")
-        xml = xml[:i] + "<samlp:StatusDetail>%s</samlp:StatusDetail>" % r0 + xml[i:]
+        xml = xml[:i] + "<samlp:StatusDetail>%s</samlp:StatusDetail>" % detail + xml[i:]
+
+    def sign_parked(xml, aid, n):
+        xml = render.sign_xml(xml, n["k"], render.A_ELEM, aid)
+        return corrupt_assertion(xml, aid, "sigvalue") if n["bad"] else xml
 
     def finish(xml, own, g):
         sh = g.get("sh")
@@ -1290,16 +1523,22 @@ def build_shaped(st, memo):
         if sh and sh["x"] == "before":
             i = _own_signature_start(xml, own)
             xml = xml[:i] + shaped_template(own, STD_SHAPE, filled=True) + xml[i:]
+        if sh and sh["x"] == "in" and sh["n"]["ahead"]:
+            xml = _move_own_signature_to_end(xml, own)
         return xml
 
+    if an:
+        xml = sign_parked(xml, "a-9", an)
     if as_:
         xml = render.sign_xml(xml, as_["k"], render.A_ELEM, "a-1")
         xml = finish(xml, "a-1", as_)
     if st["enc"]:
-        key = ("enc", xml)
+        key = ("enc", st.get("rcpt", "sp"), xml)
         if key not in memo:
-            memo[key] = render.encrypt_assertion_in_response(xml, "sp")
+            memo[key] = render.encrypt_assertion_in_response(xml, RCPT_CERT[st.get("rcpt", "sp")])
         xml = memo[key]
+    if rn and rn["where"] in ("ext", "status"):
+        xml = sign_parked(xml, "a-8", rn)
     if rs:
         xml = render.sign_xml(xml, rs["k"], render.R_ELEM, "r-1")
         xml = finish(xml, "r-1", rs)
@@ -1397,9 +1636,9 @@ def build_multi(st, memo):
             xml = corrupt_assertion(xml, "a-%d" % (i + 1), x["as"]["c"])
     for i, x in enumerate(st["asl"]):
         if x["enc"]:
-            key = ("enc-n", i, xml)
+            key = ("enc-n", i, st.get("rcpt", "sp"), xml)
             if key not in memo:
-                memo[key] = encrypt_child(xml, i)
+                memo[key] = encrypt_child(xml, i, RCPT_CERT[st.get("rcpt", "sp")])
             xml = memo[key]
     if rs:
         xml = render.sign_xml(xml, rs["k"], render.R_ELEM, resp["id"])
@@ -1440,9 +1679,9 @@ def build_step(st, memo):
         if as_["c"] and not inner:
             xml = corrupt(xml, as_["c"])
     if st["enc"]:
-        key = ("enc", xml)
+        key = ("enc", st.get("rcpt", "sp"), xml)
         if key not in memo:
-            memo[key] = render.encrypt_assertion_in_response(xml, "sp")
+            memo[key] = render.encrypt_assertion_in_response(xml, RCPT_CERT[st.get("rcpt", "sp")])
         xml = memo[key]
     if rs:
         xml = render.sign_xml(xml, rs["k"], render.R_ELEM, resp["id"])
@@ -1541,6 +1780,56 @@ def surface_client(cfg, surf):
     return Saml2Client(config=obj)
 
 
+_pem_memo = {}
+
+
+def _pem(kind, name):
+    from harness import fixtures
+
+    if (kind, name) not in _pem_memo:
+        with open(fixtures.key_path(name) if kind == "key" else fixtures.cert_path(name)) as f:
+            _pem_memo[(kind, name)] = f.read()
+    return _pem_memo[(kind, name)]
+
+
+def outstanding_certs(name):
+    """The outstanding_certs argument: {request id: {"key": PEM, "cert": PEM}} or {request id: [such dicts]}
+    (generate_cert_info style: the key pair whose certificate went out with the AuthnRequest)."""
+    if OCERTS[name] is None:
+        return {}
+    rid, pairs, as_list = OCERTS[name]
+    entries = [{"key": _pem("key", RCPT_CERT[r]), "cert": _pem("cert", RCPT_CERT[r])} for r in pairs]
+    return {rid: entries if as_list else entries[0]}
+
+
+def observe_with_certs(sp, binding, encoded, oc):
+    """Local twin of spaccept.observe (which has no outstanding_certs parameter; wish for the shared file): the same
+    observation, the per-request key pairs handed to parse_authn_request_response."""
+    obs = {"identity": False, "exc": None, "name_id": None, "cached": False}
+    try:
+        r = sp.parse_authn_request_response(encoded, binding, {"req-1": "/"}, outstanding_certs=oc)
+    except Exception as e:  # noqa
+        obs["exc"] = type(e).__name__
+        r = None
+    if r is not None:
+        nid = getattr(r, "name_id", None)
+        obs["name_id"] = getattr(nid, "text", None) if nid is not None else None
+        try:
+            si = r.session_info()
+        except Exception:
+            si = None
+        obs["identity"] = bool(obs["name_id"] is not None or getattr(r, "ava", None) or getattr(r, "assertion", None) is not None
+                               or si is not None)
+    try:
+        subs = list(sp.users.subjects())
+    except Exception:
+        subs = []
+    if subs:
+        obs["cached"] = True
+        obs["identity"] = True
+    return obs
+
+
 def observe(case):
     over = opt_over(case["cfg"])
     if case.get("surf"):
@@ -1561,7 +1850,10 @@ def observe(case):
         from saml2.population import Population
 
         sp.users = Population()
-        o = spaccept.observe(sp, xml, BIND_URI[st["b"]], {"req-1": "/"}, encoded=encode(xml, st["b"]))
+        if st.get("oc"):
+            o = observe_with_certs(sp, BIND_URI[st["b"]], encode(xml, st["b"]), outstanding_certs(st["oc"]))
+        else:
+            o = spaccept.observe(sp, xml, BIND_URI[st["b"]], {"req-1": "/"}, encoded=encode(xml, st["b"]))
         out.append({"identity": o["identity"], "exc": o["exc"], "cached": o["cached"], "name_id": o["name_id"]})
     return {"steps": out}
 
@@ -1586,10 +1878,27 @@ def cq_sig(g):
         return "(sg %s %s %s)" % (CQ_KEY[g["k"]], CQ_KI[g["ki"]], cq(bool(g["c"])))
     return "(sgx %s %s %s [%s] %s [%s] %s %s)" % (
         CQ_KEY[g["k"]], CQ_KI[g["ki"]], cq(bool(g["c"])), "; ".join(CQ_REF[t] for t in sh["refs"]), CQ_C14N[sh["c14n"]],
-        "; ".join(CQ_TR[t] for t in sh["tr"]), cq(bool(sh["obj"])), CQ_X[sh["x"]])
+        "; ".join(CQ_TR[t] for t in sh["tr"]), cq(bool(sh["obj"])),
+        "(XIn %s %s %s)" % (cq(bool(sh["n"]["ahead"])), CQ_KEY[sh["n"]["k"]], cq(bool(sh["n"]["bad"]))) if sh["x"] == "in" else CQ_X[sh["x"]])
+
+
+def cq_ocerts(name):
+    if not name:
+        return "OAbsent"
+    if OCERTS[name] is None:
+        return "OEmpty"
+    rid, pairs, _as_list = OCERTS[name]
+    return "(%s [%s])" % ("OThis" if rid == "req-1" else "OElse", "; ".join(CQ_RCPT[r] for r in pairs))
 
 
 def cq_step(st, o):
+    t = cq_step0(st, o)
+    if st.get("oc") or st.get("rcpt", "sp") != "sp":
+        return "stk %s %s (%s)" % (CQ_RCPT[st.get("rcpt", "sp")], cq_ocerts(st.get("oc")), t)
+    return t
+
+
+def cq_step0(st, o):
     if "asl" in st:
         return "stm %s %s [%s] %s %s" % (CQ_WHO[st["rw"]], cq_sig(st["rs"]), "; ".join(
             "asr %s %s %s" % (CQ_WHO[x["aw"]], cq_sig(x["as"]), cq(bool(x["enc"]))) for x in st["asl"]), st["b"], cq(bool(o["identity"])))
@@ -1633,6 +1942,13 @@ def coq_case(case, obs):
 
 
 def abstract_step(st):
+    k = abstract_step0(st)
+    if st.get("oc") or st.get("rcpt", "sp") != "sp":
+        return k + ((st.get("rcpt", "sp"), st.get("oc")),)
+    return k
+
+
+def abstract_step0(st):
     if st.get("legacy"):
         return ("idp", "idp", st["rs"], st["as"], st["enc"], st["b"])
 
@@ -1642,7 +1958,8 @@ def abstract_step(st):
         sh = g.get("sh")
         if not sh:
             return (g["k"], g["ki"], bool(g["c"]))
-        return (g["k"], g["ki"], bool(g["c"]), tuple(sh["refs"]), sh["c14n"], tuple(sh["tr"]), sh["obj"], sh["x"])
+        nk = (sh["n"]["ahead"], sh["n"]["k"], sh["n"]["bad"], sh["n"]["where"]) if sh["x"] == "in" else None
+        return (g["k"], g["ki"], bool(g["c"]), tuple(sh["refs"]), sh["c14n"], tuple(sh["tr"]), sh["obj"], sh["x"]) + ((nk,) if nk else ())
     if "asl" in st:
         return (st["rw"], ab(st["rs"]), [(x["aw"], ab(x["as"]), x["enc"]) for x in st["asl"]], st["b"])
     return (st["rw"], st["aw"], ab(st["rs"]), ab(st["as"]), st["enc"], st["b"])
@@ -1665,7 +1982,9 @@ def histogram(cases, observed):
     h = {"by_tag": {}, "messages": 0, "identity": 0, "rejected": 0, "exceptions": {}, "by_binding": {}, "encrypted": 0,
          "sequence_length": {}, "corruptions": {}, "issuer_pairs": {}, "signing_keys": {}, "shaped_signatures": 0,
          "reference_targets": {}, "second_signature": {}, "shapes_accepted": 0, "surfaces": {}, "options_written": {},
-         "assertion_lists": {}, "assertion_lists_accepted": {}, "messages_with_several_assertions": 0}
+         "assertion_lists": {}, "assertion_lists_accepted": {}, "messages_with_several_assertions": 0,
+         "descendant_signatures": {}, "descendant_signatures_accepted": 0, "recipient_x_outstanding_certs": {},
+         "recipient_x_outstanding_certs_accepted": {}}
     for c, o in zip(cases, observed):
         if c.get("surf"):
             sf = c["surf"]
@@ -1681,6 +2000,17 @@ def histogram(cases, observed):
         for st, so in zip(c["steps"], o["steps"]):
             h["messages"] += 1
             h["by_binding"][st["b"]] = h["by_binding"].get(st["b"], 0) + 1
+            if st.get("oc") or st.get("rcpt", "sp") != "sp":
+                k = "%s/%s" % (st.get("rcpt", "sp"), st.get("oc") or "not given")
+                h["recipient_x_outstanding_certs"][k] = h["recipient_x_outstanding_certs"].get(k, 0) + 1
+                if so["identity"]:
+                    h["recipient_x_outstanding_certs_accepted"][k] = h["recipient_x_outstanding_certs_accepted"].get(k, 0) + 1
+            for g in (() if st.get("legacy") else (st.get("rs"), st.get("as"))):
+                nd = _nested(g)
+                if nd:
+                    k = "%s %s %s%s" % (nd["where"], "ahead" if nd["ahead"] else "after", nd["k"], " edited" if nd["bad"] else "")
+                    h["descendant_signatures"][k] = h["descendant_signatures"].get(k, 0) + 1
+                    h["descendant_signatures_accepted"] += 1 if so["identity"] else 0
             if "asl" in st:
                 k = "".join("e" if x["enc"] else "p" for x in st["asl"]) or "-"
                 h["assertion_lists"][k] = h["assertion_lists"].get(k, 0) + 1
